@@ -4,7 +4,7 @@
 //
 //	vx replay -out res.ndjson vxs_1.ndjson vxv_1.ndjson ...    validator: model -> code
 //	vx adapter -out res.ndjson vxs_1.ndjson vxa_1.ndjson ...   adapter view: model -> code
-//	vx xnode -out res.ndjson vxs_1.ndjson ...                  schema walker XNode (node_xpath.go)
+//	vx xnode -out res.ndjson vxs_1.ndjson vxw_1.ndjson ...     schema walker XNode (node_xpath.go)
 //	vx yang vxs_1.ndjson                                       print the rendered YANG
 //	vx probe vxs_1.ndjson '<data json>' [all|none|state|config|func]   try one input by hand
 //	vx probe-yang file.yang '<data json>' [all|none|state|config|func]
